@@ -133,6 +133,17 @@ int main()
       FixedGen g{(uint32_t)vh::to_ull(w.at(3)), (uint32_t)vh::to_ull(w.at(4)), (uint32_t)vh::to_ull(w.at(5))};
       return T(d(g));
     }
+    if (op == "urd2") {
+      // ONE distribution object sampled with two generators of different range: each draw must use that
+      // generator's own range (nothing may be remembered from the first generator)
+      utility::uniform_real_distribution<float> d(F(1), F(2));
+      FixedGen g1{(uint32_t)vh::to_ull(w.at(3)), (uint32_t)vh::to_ull(w.at(4)), (uint32_t)vh::to_ull(w.at(5))};
+      FixedGen g2{(uint32_t)vh::to_ull(w.at(6)), (uint32_t)vh::to_ull(w.at(7)), (uint32_t)vh::to_ull(w.at(8))};
+      std::string a = T(d(g1));
+      std::string b = T(d(g2));
+      std::string c = T(d(g1));
+      return a + " " + b + " " + c;
+    }
     if (op == "color") {
       vec3f c = utility::makeRandomColor((unsigned)vh::to_ull(w.at(1)));
       return T(c.x) + " " + T(c.y) + " " + T(c.z);
